@@ -16,11 +16,15 @@ CHECKS = {
                 note=BASE_NOTE + " Float literals are read as the decimals written; a closed 1-ulp link check ties them to the runtime doubles."),
     "C20": dict(cat="proof", ref="DESIGN §8 C20, App. A.1",
                 text="Koenig construction (new_konig inside bipartite_vertex_cover) verified for all graphs by VC generation over the real source "
-                     "with loop invariants (110 obligations, z3): result is a cover with exactly one selected endpoint per matching edge, hence "
-                     "minimum; asserts never fire when no augmenting path exists. Matching producers are an assumed contract, monitored by an "
+                     "with loop invariants (z3): result is a cover with exactly one selected endpoint per matching edge and every selected vertex "
+                     "matched; the step to 'minimum' (counting lemma + weak duality) is machine-checked by Lean 4 + Mathlib on every run "
+                     "(lemmas/Konig.lean); asserts never fire when no augmenting path exists. The Hungarian matching producer is under contract "
+                     "itself (recursive augment by its own contract, max_bipartite_matching2, and bipartite_vertex_cover for algo='Hungarian' with "
+                     "nothing abstracted; 237 obligations in all); only SciPy's Hopcroft-Karp stays an assumed contract, monitored by an "
                      "exhaustive bounded run (all graphs up to 3x3 / 4x4, both algorithms, brute-force minimum).",
-                technique="contract-based deductive verification: pyvc (ast -> weakest-precondition VCs with loop invariants) discharged by z3/cvc5; bounded runtime contracts as labelled stand-in",
-                note=BASE_NOTE + " Assumed: scipy maximum_bipartite_matching and augment() return a matching; termination not proved."),
+                technique="contract-based deductive verification: pyvc (ast -> weakest-precondition VCs with loop invariants, recursion by contract) discharged by z3/cvc5; "
+                          "Lean 4 + Mathlib for the counting lemmas; bounded runtime contracts as labelled stand-in",
+                note=BASE_NOTE + " Assumed: scipy maximum_bipartite_matching returns a matching; termination not proved."),
 }
 
 OTHER_NOTE = BASE_NOTE + " Numeric clauses are runtime contracts against independent dense references on bounded inputs (labelled bounded, never counted as proved)."
